@@ -597,68 +597,106 @@ func c10Recover(c *Ctx, rule string) {
 }
 
 // c10Reflected: a reflected value is encoded BEFORE its key or separator is written, and an encoding error returns
-// before any write.
+// before any write. Decided by path exploration (helpers, function literals and method values handed to them explored
+// inline): encodeReflected is the one opaque step, forked into "succeeded" / "failed"; every mutating call on the
+// encoder's buffer is a write.
 func c10Reflected(c *Ctx, rule string) {
+	encFn := c.Method(CorePath, "jsonEncoder", "encodeReflected")
+	if !c.Anchor(rule, "zapcore.jsonEncoder.encodeReflected", encFn != nil) {
+		return
+	}
+	jn := c.Named(CorePath, "jsonEncoder")
 	for _, m := range []string{"AddReflected", "AppendReflected"} {
 		fn := c.Method(CorePath, "jsonEncoder", m)
 		if !c.Anchor(rule, "zapcore.jsonEncoder."+m, fn != nil) {
 			continue
 		}
-		var enc ssa.Instruction
-		for _, cl := range Calls(fn) {
-			if f := CalleeFunc(cl); f != nil && f.Name() == "encodeReflected" {
-				enc = cl
+		isEnc := func(cl *ssa.Call) bool { return !cl.Call.IsInvoke() && cl.Call.StaticCallee() == encFn }
+		inl := func(h *ssa.Function) bool {
+			if h == encFn {
+				return false
 			}
+			rn := RecvNamed(h)
+			if h.Parent() != nil {
+				rn = RecvNamed(h.Parent())
+			}
+			return rn != nil && jn != nil && rn.Obj() == jn.Obj()
 		}
-		if enc == nil {
-			c.Bad(rule, fn.String(), "encodes-first", fn.Pos(), "no encodeReflected call")
+		seqs, trunc := ConcPaths(fn, ConcCfg{
+			Inline: inl, InlineAny: inl, MaxDepth: 8,
+			Fork: func(in ssa.Instruction, st *ConcState) []ConcAlt {
+				x, ok := in.(*ssa.Extract)
+				if !ok {
+					return nil
+				}
+				cl, ok := x.Tuple.(*ssa.Call)
+				if !ok || !isEnc(cl) || x.Index != 1 {
+					return nil
+				}
+				return []ConcAlt{{Ev: "enc-ok", Nils: map[ssa.Value]bool{x: true}}, {Ev: "enc-fail", Nils: map[ssa.Value]bool{x: false}}}
+			},
+			Event: func(in ssa.Instruction, st *ConcState) string {
+				switch x := in.(type) {
+				case *ssa.Call:
+					if f := CalleeFunc(x); f != nil && f.Pkg() != nil && f.Pkg().Path() == "go.uber.org/zap/buffer" && isMutatingBufMethod(f.Name()) {
+						if args := Args(x); len(args) > 0 && encBufRecv(c, args[0]) {
+							return "w"
+						}
+					}
+				case *ssa.Return:
+					return "ret"
+				case *ssa.Panic:
+					return "panic"
+				}
+				return ""
+			},
+		})
+		if trunc || len(seqs) == 0 {
+			c.Und(rule, fn.String(), "encodes-before-writing", fn.Pos(), "path exploration incomplete (%d sequences)", len(seqs))
 			continue
 		}
-		var early []string
-		for _, cl := range Calls(fn) {
-			f := CalleeFunc(cl)
-			if f == nil || cl == enc {
-				continue
-			}
-			writes := false
-			switch f.Name() {
-			case "addKey", "addElementSeparator":
-				writes = true
-			default:
-				for _, bc := range encBufCalls(c, fn) {
-					if ssa.Instruction(bc.call) == cl && isMutatingBufMethod(bc.m) {
-						writes = true
+		var bad []string
+		okPaths := 0
+		for _, sq := range seqs {
+			toks := strings.Split(sq, " ; ")
+			st, w := "", 0
+			viol := false
+			for _, t := range toks {
+				switch t {
+				case "enc-ok", "enc-fail":
+					if st != "" {
+						viol = true // encoded twice
+					}
+					st = t
+				case "w":
+					if st != "enc-ok" {
+						viol = true // written before the encoding, or after it failed
+					}
+					w++
+				case "ret":
+					if st == "" {
+						viol = true // nothing encoded
+					}
+					if st == "enc-ok" {
+						if w < 1 {
+							viol = true // the value itself
+						}
+						if w >= 2 {
+							okPaths++ // key/separator and value
+						}
 					}
 				}
 			}
-			if writes && !Dominates(enc, cl) {
-				early = append(early, f.Name())
+			if viol {
+				bad = append(bad, sq)
 			}
 		}
-		// nothing is written unless the encoding succeeded
-		errRetOK := true
-		encD := Desc(enc.(ssa.Value)) + "#1 == nil"
-		nw := 0
-		for _, cl := range Calls(fn) {
-			f := CalleeFunc(cl)
-			if f == nil || cl == enc {
-				continue
-			}
-			isW := f.Name() == "addKey" || f.Name() == "addElementSeparator"
-			for _, bc := range encBufCalls(c, fn) {
-				if ssa.Instruction(bc.call) == cl && isMutatingBufMethod(bc.m) {
-					isW = true
-				}
-			}
-			if isW {
-				nw++
-				if !containsS(AtomStrings(Guards(cl)), encD) {
-					errRetOK = false
-				}
-			}
+		ex := ""
+		if len(bad) > 0 {
+			ex = bad[0]
 		}
-		errRetOK = errRetOK && nw >= 2
-		c.Check(len(early) == 0 && errRetOK, rule, fn.String(), "encodes-before-writing", enc.Pos(), "the reflected value is encoded before the key/separator is written and an encoding error returns with the line untouched (writes before encoding: %v)", early)
+		c.Check(len(bad) == 0 && okPaths > 0, rule, fn.String(), "encodes-before-writing", fn.Pos(),
+			"by path exploration (%d paths, encodeReflected forked into succeeded/failed): nothing is written to the encoder's buffer before the value is encoded nor after the encoding failed, and key/separator and value are written when it succeeded (offending path: %s)", len(seqs), ex)
 	}
 
 }
